@@ -199,6 +199,23 @@ def gen_multi(seed_i, mode, tier):
         scn["actors"] = twins + scn["actors"][:1]
         scn["codec_twins"] = True
         n = len(scn["actors"])
+    straddle_race = False
+    if mode == "line" and not scn.get("codec_twins") and not scn.get("de43_pair") and kn.random() < 0.12:
+        # two or three blocked writers whose length prefixes keep straddling payload edges (each such write()
+        # is split in two inside the blocker), pre-empted every few source lines
+        sub = Streams(sub_seed(seed_i, "straddle"))
+        wl2 = sub["workload"]
+        acts = []
+        for _ in range(kn.choice([2, 2, 3])):
+            recs = [{"pos": [wl2.randint(0, 999), wl2.choice([1005, 1006, 1007])]}]
+            for _ in range(wl2.randint(2, 5)):
+                # keep the running stream position so that the next prefix straddles again: 4 + L = 1012k + {1..3} - previous residue
+                recs.append({"pos": [wl2.randint(0, 999), wl2.choice([1008, 1009, 1010, 1011, 1012, 2020, 2024, wl2.randint(1, 600)])]})
+            acts.append({"role": "writer", "cls": "VbsWriter", "blocked": True, "records": recs})
+        scn["actors"] = acts
+        scn["straddle_race"] = True
+        straddle_race = True
+        n = len(acts)
     sc = st["schedule"]
     if mode == "op":
         # number of ops per actor is known from the specs (writers: items + close; readers: records + 1)
@@ -234,7 +251,10 @@ def gen_multi(seed_i, mode, tier):
             return 60 + 25 * len(src.get("records") or [])
         steps = [est(a) for a in scn["actors"]]
         total = max(1, sum(steps))
-        if sc.random() < 0.5:
+        if straddle_race:
+            scn["schedule"] = {"pattern": "dense", "start": sc.randrange(n), "every": sc.choice([2, 3, 5, 7, 11, 13]),
+                               "estimated_steps": steps}
+        elif sc.random() < 0.5:
             k = sc.randint(1, 6)
             sw = sorted([sc.randint(1, total), sc.randrange(n)] for _ in range(k))
             scn["schedule"] = {"pattern": "pct", "start": sc.randrange(n), "switches": sw, "estimated_steps": steps}
@@ -362,6 +382,8 @@ def run_task(task):
                 c["probe:run_with_a_reader_on_a_faulted_image"] += 1
             if scn.get("share_config"):
                 c["probe:run_with_instances_sharing_one_config_object"] += 1
+            if scn.get("straddle_race"):
+                c["probe:run_with_blocked_writers_splitting_writes_across_payload_edges"] += 1
             if scn.get("codec_twins"):
                 c["probe:run_with_two_readers_of_the_same_bytes_under_sibling_codecs"] += 1
             if scn.get("de43_pair"):
